@@ -1,10 +1,11 @@
 #!/bin/bash
 # tools/runall.sh quick|thorough [ids...] : run every registered check on the current tree, print one line each.
 tier="${1:-quick}"; shift
-ids="$@"; [ -z "$ids" ] && ids=$(python3 -c "import json;print(' '.join(c['property_id'] for c in json.load(open('/verif/MANIFEST.json'))['checks']))")
+base=$(cd "$(dirname "$0")/.." && pwd)
+ids="$@"; [ -z "$ids" ] && ids=$(python3 -c "import json;print(' '.join(c['property_id'] for c in json.load(open('$base/MANIFEST.json'))['checks']))")
 rc=0
 for id in $ids; do
-  out=$(/verif/check $id $tier 2>&1); code=$?
+  out=$("$base/check" $id $tier 2>&1); code=$?
   echo "$id exit=$code $(echo "$out" | grep -E '^(OK|VIOLATION|HARNESS|KNOWN-FINDING)' | head -3 | tr '\n' ' ')"
   [ $code -ne 0 ] && rc=1 && echo "$out" | tail -15
 done
